@@ -131,6 +131,7 @@ class VCtx:
         self.paths = 0
         self.spec_cache = {}
         self.sum_defs = []
+        self.finite_assumptions = []
 
     def all_axioms(self):
         return list(self.axioms) + list(self.fm.axioms)
